@@ -88,6 +88,11 @@ impl HintInstance {
         self.graphics.instruct_control & 1 == 0
     }
 
+    /// Returns the hinting target this instance was configured with.
+    pub fn target(&self) -> Target {
+        self.graphics.target
+    }
+
     /// Returns true if backward compatibility mode has been activated
     /// by the hinter settings or the `prep` table.
     pub fn backward_compatibility(&self) -> bool {
